@@ -182,6 +182,8 @@ class ScriptRelay(object):
             raise PermanentRelayError('rejected', Reply('550', detail or
                                                         '5.0.0 permanent'))
         if kind == Outcome.OTHER:
+            if detail == 'oserror':
+                raise OSError(111, 'Connection refused')
             raise RuntimeError('unexpected relay failure')
         # per-recipient: detail = list of 'ok' | ('perm', text) | ('temp', t)
         results = []
